@@ -10,18 +10,29 @@
 static unsigned long G_os_lock_events;		/* number of lock/unlock calls so far */
 static unsigned long G_os_locks_held;		/* number of mutexes currently held by this thread */
 
+/* optional hooks: the harness may let the environment act while the lock is not held (rely/guarantee) */
+#ifdef OS_LOCK_HOOKS
+static void os_lock_hook(pthread_mutex_t *m);	/* called right after acquisition */
+static void os_unlock_hook(pthread_mutex_t *m);	/* called right before release */
+#else
+#define os_lock_hook(m)		do { } while (0)
+#define os_unlock_hook(m)	do { } while (0)
+#endif
+
 int pthread_mutex_lock(pthread_mutex_t *m)
 {
 	VERIF_ASSERT(OS_HELD(m) == 0, "pthread_mutex_lock: mutex not already held by this thread (self-deadlock)");
 	OS_HELD(m) = 1;
 	G_os_lock_events++;
 	G_os_locks_held++;
+	os_lock_hook(m);
 	return 0;
 }
 
 int pthread_mutex_unlock(pthread_mutex_t *m)
 {
 	VERIF_ASSERT(OS_HELD(m) == 1, "pthread_mutex_unlock: mutex is held by this thread");
+	os_unlock_hook(m);
 	OS_HELD(m) = 0;
 	G_os_lock_events++;
 	G_os_locks_held--;
